@@ -41,6 +41,11 @@ def gen(rng, tier, idx):
     wp['n_leaves'] = rng.choice([2, 3, 4, 5, 6, 8])
     wp['depth'] = rng.choice([1, 2, 3])
     wp['n_genes'] = rng.choice([6, 8, 12, 20])
+    u = rng.random()
+    if u < 0.04:
+        wp['n_genes'] = 300          # gene indices past 2**8
+    elif u < 0.07:
+        wp['n_leaves'] = 24          # 276 pairs: pair indices past 2**8
     wp['zero_var'] = rng.choice([0.0, 0.15, 0.4])
     route = rng.choice(['direct', 'direct', 'direct', 'pmask'])
     th = {'p_th': rng.choice([0.01, 0.05, 0.2, 0.5]),
